@@ -27,6 +27,7 @@ import numpy as np
 import adjoint_dense as D
 import adjoint_grid as G
 import adjoint_trees as T
+import adjoint_types as Y
 import common
 from common import ModelErr, fs2b, b2f
 
@@ -611,6 +612,8 @@ def correspond(ctx, model):
     # 6. malformed stream: one size mismatch in the tree -> both sides reject -------------------------------------
     for t in range(ctx.n(12, 60)):
         malformed_case(ctx, model, rng)
+    # 7. dtype / shape layer: guards of adj, declared metadata, "adj never fails for a conforming input" -------------
+    types_stream(ctx, model, rng)
 
 
 def run_tree_case(ctx, model, tree, leaves, rng, stream="tree"):
@@ -802,6 +805,97 @@ def leaf_models(ctx, model, rng):
             ctx.disagree("adjoint.leaf_circ", {"h": D._js(hp.ravel()), "n": n, "k": kk, "hdt": hdt, "idt": idt}, "CircularConvolve dense matrices", diff)
 
 
+
+# ----------------------------------------------------------------------------------------------------------
+# dtype / shape layer (Model/AdjointTy.lean, theorem C01_adj_total)
+
+
+def types_stream(ctx, model, rng):
+    """random typed derivation trees (mixed dtypes, weak/strong scalars, stacks, replication): declared metadata,
+    acceptance at construction, result type / error kind of D(x) and D.adj(y) for y of every dtype - model vs code at
+    EVERY node; instance of C01_adj_total on the code"""
+    coded = ctx.is_known(Y.KNOWN_T)  # `.T` as the code has it while the finding is open, else with the repaired dtypes
+    ntrees = ctx.n(36, 260)
+    maxd = ctx.n(3, 4)
+    for t in range(ntrees):
+        g = Y.Gen(rng, [0.0, 0.15, 0.4][t % 3])
+        with warnings.catch_warnings():
+            warnings.simplefilter("ignore")
+            g.gen(int(rng.integers(1, maxd + 1)), g.shape(), g.shape(), g.pick(Y.DTN), None)
+            lw = [Y.leaf_wire(op) for op in g.ops]
+        fl = [Y.faithful(w) for w in lw]
+        for nd in g.nodes:
+            types_node(ctx, model, g, nd, lw, fl, coded)
+
+
+def _poisoned(nd):
+    return Y.mixed_stack(nd) or any(_poisoned(c) for c in getattr(nd, "children", []))
+
+
+def _leaf_ids(tree):
+    return sorted({t["i"] for t in Y.subtrees(tree) if t["k"] == "leaf"})
+
+
+def types_node(ctx, model, g, nd, lw, fl, coded, stream="types"):
+    if nd.err == "operand-rejected":
+        return
+    case = {"tree": Y.wire_tree(nd.tree), "leaves": g.leaves, "types": True}
+    key = json.dumps([case["tree"], [g.leaves[i] for i in _leaf_ids(nd.tree)]], sort_keys=True, default=str)
+    k = nd.tree["k"]
+    if nd.op is None:
+        # scico rejected the construction: the model's `wfT` must be false
+        rep = model.call("types", leaves=lw, tree=case["tree"], coded=coded, probe_x=[], probe_y=[])
+        ctx.case({"stream": stream, "node": k, "rejected": nd.err}, None)
+        ctx.count(f"types:rejected-at-construction:{nd.err}")
+        if rep["wf"]:
+            ctx.disagree("adjoint.types_reject", case, {"raised": nd.err}, {"wf": True})
+        return
+    if Y.mixed_stack(nd):
+        # accepted by scico although `check_if_stackable` means to reject it (its test is a no-op); the model rejects
+        rep = model.call("types", leaves=lw, tree=case["tree"], coded=coded, probe_x=[], probe_y=[])
+        ctx.case({"stream": stream, "node": k, "mixed_stack": True}, None)
+        ctx.count("types:stack of operands on different dtypes (accepted by scico)")
+        if rep["wf"]:
+            ctx.disagree("adjoint.types_stack", case, "accepted", {"wf": True}, note="model accepts a dtype-mixed stack")
+        else:
+            ctx.disagree("adjoint.types_stack", case, "accepted", {"wf": False}, oracle=Y.total_oracle, known_id=Y.KNOWN_STACK,
+                         note="scico accepts a stack of operators with different dtypes; check_if_stackable is meant to reject it")
+        return
+    if _poisoned(nd):
+        ctx.count("types:above a dtype-mixed stack (skipped)")
+        return
+    with warnings.catch_warnings():
+        warnings.simplefilter("ignore")
+        obs = Y.observe_operator(nd.op)
+    ish, osh = Y.norm_shape(nd.op.input_shape), Y.norm_shape(nd.op.output_shape)
+    px, py = Y.probes(ish, osh, obs["idt"])
+    rep = Y.model_reply(model, lw, nd.tree, coded, px, py)
+    leaves_ok = all(fl[i] for i in _leaf_ids(nd.tree))
+    ctx.case({"stream": stream, "node": k, "in": [obs["idt"], str(ish)], "out": [obs["odt"], str(osh)], "homog": rep["homog"]}, key, sample_every=41)
+    ctx.count(f"types-node:{k}")
+    ctx.count(f"types-dtypes:{obs['idt']}->{obs['odt']}")
+    ctx.count("types:homogeneous" if rep["homog"] else "types:mixed-dtype sum or .T inside")
+    diff = {}
+    if not rep["wf"]:
+        diff["wf"] = [True, False]
+    for f in ("ish", "osh", "idt", "odt", "call", "adj"):
+        if rep[f] != obs[f]:
+            diff[f] = {"impl": obs[f], "model": rep[f]}
+    if diff:
+        ctx.disagree("adjoint.types", case, {"impl": "declared metadata, D(x), D.adj(y) on the implementation"}, diff, oracle=Y.total_oracle,
+                     note=f"construction {k}: dtype/shape model differs from the implementation")
+        return
+    conforming = obs["adj"][Y.DTN.index(obs["odt"])]
+    want = {"ok": {"dt": obs["idt"], "sh": Y.shp_wire(ish)}}
+    if rep["homog"] and leaves_ok:
+        # instance of theorem C01_adj_total on the real code
+        ctx.count("types:C01_adj_total instance")
+        if conforming != want:
+            ctx.disagree("adjoint.adj_total", case, {"adj(conforming y)": conforming}, {"theorem": want}, oracle=Y.total_oracle)
+    elif conforming != want:
+        ctx.count("types:adj fails / wrong dtype for the conforming y (mixed dtypes: excluded case)")
+
+
 # ----------------------------------------------------------------------------------------------------------
 
 
@@ -821,6 +915,42 @@ def findings(ctx, model):
         A, res, cerr = build_and_check(G._seeded(dict(cfg)), rng)
         still = cerr is None and not res["ok"]
         ctx.known_finding(fid, still, detail="" if not still else res["fails"][0][1])
+    # dtype-layer witnesses
+    if ctx.is_known(Y.KNOWN_STACK):
+        with warnings.catch_warnings():
+            warnings.simplefilter("ignore")
+            still, detail = _stack_witness()
+        ctx.known_finding(Y.KNOWN_STACK, still, detail=detail)
+    if ctx.is_known(Y.KNOWN_T):
+        with warnings.catch_warnings():
+            warnings.simplefilter("ignore")
+            still, detail = _T_witness()
+        ctx.known_finding(Y.KNOWN_T, still, detail=detail)
+
+
+def _stack_witness():
+    """VerticalStack([MatrixOperator(float64 2x3), float64->complex128 operator]) is accepted; adj raises for the conforming y"""
+    from scico import linop
+
+    a = Y.build_leaf({"cls": "MatrixOperator", "ish": [3], "osh": [2], "idt": "float64", "odt": "float64", "seed": 1})
+    b = Y.build_leaf({"cls": "Generic", "ish": [3], "osh": [2], "idt": "float64", "odt": "complex128", "seed": 2})
+    try:
+        S = linop.VerticalStack([a, b], jit=False)
+    except Exception:  # noqa: BLE001
+        return False, ""
+    r = Y.observe(S.adj, Y.make(S.output_dtype, S.output_shape))
+    return "err" in r, f"VerticalStack declares {np.dtype(S.output_dtype)}; adj(conforming y) -> {r}"
+
+
+def _T_witness():
+    """A: complex128 (3,) -> float64 (2,): A.T declares input_dtype complex128 / output_dtype float64 (not swapped);
+    A.T(x) raises for the conforming x and A.T.H.adj(y) raises for the conforming y"""
+    A = Y.build_leaf({"cls": "Generic", "ish": [3], "osh": [2], "idt": "complex128", "odt": "float64", "seed": 3})
+    Tt = A.T
+    r1 = Y.observe(Tt, Y.make(Tt.input_dtype, Tt.input_shape))
+    TH = Tt.H
+    r2 = Y.observe(TH.adj, Y.make(TH.output_dtype, TH.output_shape))
+    return ("err" in r1) or ("err" in r2), f"A.T declares {np.dtype(Tt.input_dtype)}->{np.dtype(Tt.output_dtype)}; A.T(x) -> {r1}; A.T.H.adj(y) -> {r2}"
 
 
 def search(ctx, model, why):
